@@ -43,25 +43,6 @@ def gen_cfg(thorough, rng):
     return "\n".join(lines) + "\n", c
 
 
-def private_overlay(sd):
-    """Overlay whose two generated build products are private copies in the scratch directory: the shared cache
-    keeps only a few entries and is pruned by checks running concurrently on other trees."""
-    import shutil
-    last = None
-    for _ in range(4):
-        g = vf.gen_files()
-        try:
-            m = shutil.copy(g["messages"], os.path.join(sd, "messages.go"))
-            z = shutil.copy(g["libzip"], os.path.join(sd, "lib.zip"))
-            break
-        except OSError as ex:
-            last = ex
-    else:
-        raise vf.NoVerdict("generated build products vanished from the cache repeatedly: %s" % last)
-    return vf.make_overlay(sd, HARNESS, extra={vf.REPO + "/internal/i18n/messages.go": m,
-                                               vf.REPO + "/internal/cli/app/lib.zip": z})
-
-
 def to_ns(x):
     n = (x["min"] * 60 + x["sec"]) * 10 ** 9 + x["ns"]
     return -n if x["neg"] else n
@@ -132,7 +113,7 @@ def run():
                     ("Duration_MC_asis_neg.cfg", "negative forms with a day field"))
 
         def build():
-            ov = private_overlay(sd)
+            ov = vf.make_overlay(sd, HARNESS)
             tb = vf.go_test_compile(ov, "./internal/util/", os.path.join(sd, "util.test"))
             vf.build_ego(sd, ov)
             return ov, tb
@@ -166,7 +147,7 @@ def run():
         env = {"VERIF_IN": cf, "VERIF_OUT": io, "VERIF_SEED": str(vf.SEED),
                "VERIF_WINDOW": "180000" if thorough else "0",
                "VERIF_CENTERS": "" if thorough else "0,86400,172800,3599998100",
-               "VERIF_RADIUS": "0" if thorough else "1000",
+               "VERIF_RADIUS": "0" if thorough else "700",
                "VERIF_RANDOM": "150000" if thorough else "2500"}
         p = vf.run([testbin, "-test.run", "^TestVerifDurationIO$", "-test.count=1", "-test.timeout=900s"],
                    cwd=vf.REPO + "/internal/util", env=vf.goenv(env), timeout=1000)
@@ -189,7 +170,7 @@ def run():
                 x = json.loads(l)
                 if x["k"] == "sp":
                     oksp.append(x)
-                elif x["x"]["min"] > 2:
+                elif x["x"]["min"] > 2 and x["x"]["ns"] == 0:     # whole seconds: one second off is a real difference
                     okrt.append(x)
         if not okrt or not oksp:
             raise vf.NoVerdict("self-test: no accepted round trip / spelling among the first records (nothing to corrupt)")
@@ -246,14 +227,14 @@ def run():
                 what = "FormatDuration(%d ns, true) printed %r; ParseDuration of it %s" % (to_ns(rec["x"]), text, reply)
             else:
                 what = "ParseDuration(%r) [a documented form] %s" % (text, reply)
-            chk.violation(b["key"], "%s (via %s; %d pairs of this class failed)" % (what, rec["via"], b["count"]), rec)
+            chk.violation(b["key"], "%s (via %s, class %s; %d pairs with this key failed)" % (what, rec["via"], b["class"], b["count"]), rec)
         for idx in aslist(rep["offmodel"]):
             rec = json.loads(lines[idx - 1])
             if rec["via"].startswith("selftest"):
                 continue
             chk.notes.append("printed text differs from the spec's Fmt: FormatDuration(%d ns, true) = %r"
                              % (to_ns(rec["x"]), "".join(rec["text"])))
-        chk.cov["traces_validated_against_impl"] = 0
+        chk.cov["traces_validated_against_impl"] = n_real
         chk.cov["evaluations"] = n_real
         chk.cov["distinct_nontrivial"] = len(classes)
         chk.cov["io_pairs"] = {"util": n_util, "ego": len(erecs), "round_trips": cnt["rt"] - 3, "spellings": cnt["sp"] - 1,
@@ -269,9 +250,10 @@ def run():
         chk.cov["constants"] = {k: sorted(set(v)) for k, v in consts.items()}
         chk.cov["rule"] = ("states = TLC exhaustive check of the fixed parser model over the seeded grid; evaluations = real "
                            "(FormatDuration, ParseDuration) call pairs judged by the TLA+ contract Duration_Trace (Go in-package and "
-                           "Ego time package); distinct_nontrivial = distinct abstract classes (path:kind/sign/fields/spacing) judged")
-        chk.cov["exhaustive"] = bool(thorough)
-        chk.cov["window_seconds"] = 180000 if thorough else 0
+                           "Ego time package), each pair being one recorded execution (also counted as traces_validated_against_impl); distinct_nontrivial = distinct abstract classes (path:kind/sign/fields/spacing) judged")
+        chk.cov["exhaustive"] = False      # the model grid and the window are enumerated completely, the +-10^6 h range is not
+        chk.cov["window"] = ("every whole second of [-180000 s, 180000 s]" if thorough else
+                             "every whole second within 700 s of 0, +-1d, +-2d and of +-(10^6 h - 1900 s), clipped to the range")
         for c in (okrt[0], oksp[0], erecs[0]):
             chk.sample({"kind": "judged I/O pair", "record": c})
     return chk.finish()
